@@ -408,16 +408,25 @@ def format_funcname(func: object) -> str:
             and func.__self__ is not None
             and not isinstance(func.__self__, types.ModuleType)
         ):
-            return f"{func.__self__!r}.{func.__name__}"
+            return f"{safe_repr(func.__self__)}.{func.__name__}"
         else:
             return f"{func.__module__}.{func.__qualname__}"  # type: ignore
     except AttributeError:
         return repr(func)
 
 
+def safe_repr(value: object) -> str:
+    # These descriptions are built while extracting; an object whose
+    # repr() fails shouldn't cost us the thing we're describing
+    try:
+        return repr(value)
+    except Exception:
+        return f"<{type(value).__name__} object whose repr() failed>"
+
+
 def format_funcargs(args: Sequence[Any], kw: Mapping[str, Any]) -> List[str]:
-    argdescs = [repr(arg) for arg in args]
-    kwdescs = [f"{k}={v!r}" for k, v in kw.items()]
+    argdescs = [safe_repr(arg) for arg in args]
+    kwdescs = [f"{k}={safe_repr(v)}" for k, v in kw.items()]
     return argdescs + kwdescs
 
 
@@ -509,7 +518,7 @@ def glue_contextlib() -> None:
                     # stack.enter_context(some_cm) or stack.push(some_cm)
                     tag = "" if is_sync else "await "
                     method = "enter_context" if is_sync else "enter_async_context"
-                    arg = repr(manager)
+                    arg = safe_repr(manager)
                 else:
                     # stack.push(something.exit_ish_method)
                     method = "push" if is_sync else "push_async_exit"
